@@ -2,6 +2,8 @@ package gv
 
 import (
 	"fmt"
+	"os"
+	"path/filepath"
 
 	"golang.org/x/tools/go/ssa"
 
@@ -70,6 +72,36 @@ func checkC04(c *Ctx) {
 			MaxCoverReplays: -1,
 		})
 	}
+	// supplementary pipeline cross-check (sampling on the grammar axis, no symbolic variable):
+	// gocc's exit status without -a against the conflict verdict of /verif's reference LR(1)
+	nRand := 6
+	if !c.Quick() {
+		nRand = 40
+	}
+	agree := 0
+	var sampled []string
+	for _, conflicting := range []bool{false, true} {
+		for _, g := range RandomGrammars(int64(c.Seed)+int64(len(sampled)), nRand/2, conflicting) {
+			g.Flags = nil
+			res, err := c.Generate("c04_"+g.Name, g.BNF(false))
+			if err != nil {
+				c.Inconclusive = append(c.Inconclusive, "running gocc on "+g.Name+": "+err.Error())
+				continue
+			}
+			sampled = append(sampled, fmt.Sprintf("%s conflict=%v gocc-exit=%d", g.Name, conflicting, res.Exit))
+			if (res.Exit != 0) == conflicting {
+				agree++
+				continue
+			}
+			p := filepath.Join(VerifRoot, "replays", "C04", "random_"+g.Name+".bnf")
+			os.MkdirAll(filepath.Dir(p), 0o755)
+			os.WriteFile(p, []byte(g.BNF(false)), 0o644)
+			c.Violations = append(c.Violations, Finding{Job: "pipeline " + g.Name, Msg: fmt.Sprintf("gocc exits with status %d but the canonical LR(1) automaton of this grammar has conflicts=%v", res.Exit, conflicting), Replay: p, Confirm: true, What: "conflict verdict"})
+		}
+	}
+	c.Extra["pipeline_crosscheck_sampled_grammars"] = sampled
+	c.Extra["pipeline_crosscheck_agreements"] = agree
+	c.BoundsText = append(c.BoundsText, fmt.Sprintf("supplementary, NOT solver-decided: %d random grammars (seed %d): gocc's exit status without -a agrees with the conflict verdict of /verif's reference LR(1) construction", len(sampled), c.Seed))
 	c.BoundsText = append(c.BoundsText, "kernel level only: (i) (*ItemSet).Action on every item set of up to K arbitrary items in every order (conflict reported iff two different actions compete; accept competing with a reduction is refused); (ii) main.handleConflicts exits non-zero iff conflicts were found and -a is off",
 		"outside the claim: that closure/goto produce exactly the states of the canonical LR(1) automaton (the grammar axis cannot be made symbolic: item sets are maps keyed by fmt-built strings); covered only indirectly on the corpus by C02/C05/C06")
 	c.Assumptions = append(c.Assumptions, "fmt.Sprintf is an opaque function: the conflict list is only observed through len(conflicts) > 0", "os.Exit ends the path; native replay of paths ending in os.Exit is not possible and is skipped")
